@@ -1,6 +1,7 @@
 (* C15 - loading a .yo listing puts exactly the listed bytes at the listed addresses.
    Property theorems only; proofs live in YoProofs.v. *)
 From HclV Require Import Base Expr Machine Yo YoSpec YoProofs.
+From HclV Require YoCodecSpec YoCodecProofs.
 Open Scope N_scope.
 
 (* a well-formed data line '0xAAA: <2k hex digits, either case> ... |...' loads exactly its k
@@ -64,3 +65,26 @@ Example C15_corner_cases :
   load_from_y86 [] [48; 120; 48; 48; 48; 58; 32; 48; 48; 32; 124] = err1 UnparseableLine [] /\
   load_line [] (data_line [48; 49; 97] [51; 48; 70; 50] (repeat 32 16) [32; 120]) = Some [(26, 48); (27, 242)].
 Proof. vm_compute. repeat split; reflexivity. Qed.
+
+(* ---- the loader as a codec (YoCodecSpec.v / YoCodecProofs.v) ---------------------------------- *)
+(* a listing written for a memory (lines at every gap and every 10 bytes; lower or upper case
+   digits; LF or CR LF; with or without the final line end) loads to exactly that memory *)
+Theorem C15_printed_listing_loads_back : YoCodecSpec.stmt_load_print /\ YoCodecSpec.stmt_load_print_styles /\ YoCodecSpec.stmt_load_print_unterminated.
+Proof. split; [exact YoCodecProofs.load_print_holds | split; [exact YoCodecProofs.load_print_styles_holds | exact YoCodecProofs.load_print_unterminated_holds]]. Qed.
+Print Assumptions C15_printed_listing_loads_back.
+(* any accepted file: each byte is what the LAST line covering its address gives it, nothing else *)
+Theorem C15_loaded_memory_is_a_function_of_the_lines : YoCodecSpec.stmt_load_is_a_function_of_bytes.
+Proof. exact YoCodecProofs.load_is_a_function_of_bytes_holds. Qed.
+Print Assumptions C15_loaded_memory_is_a_function_of_the_lines.
+(* exactly which memories are images of some listing (three-digit address field) *)
+Theorem C15_images_of_listings : YoCodecSpec.stmt_listing_images.
+Proof. exact YoCodecProofs.listing_images_holds. Qed.
+Print Assumptions C15_images_of_listings.
+(* observation: a line with a four-digit address field is refused (not misread) *)
+Theorem C15_four_digit_address_is_refused : YoCodecSpec.stmt_four_digit_address_refused.
+Proof. exact YoCodecProofs.four_digit_address_refused_holds. Qed.
+Print Assumptions C15_four_digit_address_is_refused.
+(* C15 + C16: a listing, loaded, dumped and read back gives the listed bytes at the listed addresses *)
+Theorem C15_load_dump_read_back : YoCodecSpec.stmt_load_dump_roundtrip /\ YoCodecSpec.stmt_file_dump_roundtrip.
+Proof. split; [exact YoCodecProofs.load_dump_roundtrip_holds | exact YoCodecProofs.file_dump_roundtrip_holds]. Qed.
+Print Assumptions C15_load_dump_read_back.
